@@ -2,5 +2,5 @@
 # helper for development: ./vxrun.sh <slice> [verus args]
 RT=$(ls -d ~/.cargo/registry/src/*/rapid_time-0.1.2)
 s=$1; shift
-/verif/tools/vx/target/release/vx /verif/slices/$s.vs --crate-dir rapid_time=$RT --out /verif/build/$s.rs --map /verif/build/$s.map.json || exit 2
+/verif/build/vx-target/release/vx /verif/slices/$s.vs --crate-dir rapid_time=$RT --out /verif/build/$s.rs --map /verif/build/$s.map.json || exit 2
 verus /verif/build/$s.rs --multiple-errors 20 "$@" 2>&1 | grep -v "autoderive" 
